@@ -97,8 +97,13 @@ fn converse(srv: &mut Server, c: &Case, file: &[u8], recv_dir: &Path, out: &mut 
     let ex = expectations(c);
     let cl = Client::new();
     if c.big_burst {
-        let eff = cl.force_rcvbuf(16 << 20);
-        if eff < (8 << 20) {
+        let eff = cl.force_rcvbuf(160 << 20) as u64;
+        // kernel accounting per datagram is payload + ~2.3 KB of bookkeeping (more for large datagrams: page granularity)
+        let blk_req = c.opts.iter().find(|(n, _)| n == "blksize").and_then(|(_, v)| v.parse::<u64>().ok()).unwrap_or(512);
+        let ws_req = c.opts.iter().find(|(n, _)| n == "windowsize").and_then(|(_, v)| v.parse::<u64>().ok()).unwrap_or(1);
+        let blocks = (c.file_len as u64 / blk_req + 1).min(ws_req);
+        let need = blocks * (blk_req * 2 + 2304);
+        if eff < need {
             out.classes.push("big-burst-skipped-no-cap-net-admin");
             return Ok(());
         }
@@ -461,7 +466,7 @@ pub fn strategy() -> BoxedStrategy<Case> {
 
 /// downloads whose window is larger than the default UDP socket buffer (212992 bytes)
 pub fn big_strategy() -> BoxedStrategy<Case> {
-    (any::<bool>(), prop::sample::select(vec![(1024u64, 256u64), (1428, 200), (512, 500), (8192, 40), (65464, 5), (4096, 100), (1024, 1000), (512, 65535), (8, 2000), (8, 65535), (16, 1025), (8, 1100), (32, 4096), (65464, 70), (32768, 140)]), 0usize..3, any::<u64>())
+    (any::<bool>(), prop::sample::select(vec![(1024u64, 256u64), (1428, 200), (512, 500), (8192, 40), (65464, 5), (4096, 100), (1024, 1000), (512, 65535), (8, 2000), (8, 65535), (16, 1025), (8, 1100), (32, 4096), (65464, 70), (32768, 140), (65464, 600)]), 0usize..3, any::<u64>())
         .prop_map(|(single, (blk, ws), extra, seed)| {
             // more full blocks than fit into 212992 bytes, at most ~1.5 MB per burst
             let blocks_in_buf = (212_992 / blk) as usize;
@@ -487,10 +492,52 @@ pub fn big_strategy() -> BoxedStrategy<Case> {
         .boxed()
 }
 
+/// every subset and every order of the four options (65 ordered selections) x name case x RRQ/WRQ x port mode, valid values
+fn exhaustive_orders() -> Vec<Case> {
+    let base: [(&str, &str); 4] = [("blksize", "1024"), ("timeout", "3"), ("tsize", "0"), ("windowsize", "2")];
+    let mut selections: Vec<Vec<usize>> = vec![vec![]];
+    fn rec(cur: &mut Vec<usize>, out: &mut Vec<Vec<usize>>) {
+        for i in 0..4 {
+            if !cur.contains(&i) {
+                cur.push(i);
+                out.push(cur.clone());
+                rec(cur, out);
+                cur.pop();
+            }
+        }
+    }
+    rec(&mut vec![], &mut selections);
+    let mut out = vec![];
+    for (k, sel) in selections.iter().enumerate() {
+        for single in [false, true] {
+            for write in [false, true] {
+                let style = k % 3;
+                let opts: Vec<(String, String)> = sel
+                    .iter()
+                    .map(|i| {
+                        let (n, v) = base[*i];
+                        let name = match style {
+                            0 => n.to_string(),
+                            1 => n.to_uppercase(),
+                            _ => n.chars().enumerate().map(|(j, c)| if j % 2 == 0 { c.to_ascii_uppercase() } else { c }).collect(),
+                        };
+                        let v = if n == "tsize" && write { "2500".to_string() } else { v.to_string() };
+                        (name, v)
+                    })
+                    .collect();
+                out.push(Case { single, write, file_len: 2500, opts, timing: false, seed: 9 + k as u64, big_burst: false });
+            }
+        }
+    }
+    out
+}
+
 pub fn run(ctx: &Ctx) {
-    ctx.set_rule("per case a fresh real tftpd (single/multi port) and one request built from a generated subset and order of {blksize,timeout,tsize,windowsize} (names in lower/upper/mixed case, unknown options interleaved, values at and around every boundary) for an RRQ of a file of 0..3W+1 blocks or a WRQ. Oracle: OACK iff >=1 recognised option and none unhonourable; OACK lists only requested options with blksize/timeout/windowsize <= requested and in range, tsize = true file size (RRQ) / echo (WRQ); unhonourable values (timeout 0, windowsize 0 or >65535, blksize outside 8..65464) are never acknowledged (silence, ERROR or omission accepted); without OACK: DATA 1 / ACK 0 and 512-byte lock-step. The model client then measures the transfer: every non-final DATA has exactly the acknowledged blksize, every burst has exactly min(W, blocks left) consecutive blocks and nothing beyond, an upload is acknowledged after exactly W blocks and not before, content is byte-identical, and in timing cases (acknowledged timeout 1-2 s) the first retransmission comes no earlier than the acknowledged timeout. A second part downloads with windows larger than the default socket buffer (windowsize x blksize up to ~1.5 MB; the model client enlarges its receive buffer with SO_RCVBUFFORCE) so that 'exactly W blocks per burst' is also measured for large windows. Non-trivial = >=2 recognised options or a boundary value; distinct = distinct cases. Failures are re-run once in isolation before being reported.");
+    ctx.set_rule("exhaustive: all 65 ordered selections of the four options (valid values) x 3 name spellings x RRQ/WRQ x port mode; random: per case a fresh real tftpd (single/multi port) and one request built from a generated subset and order of {blksize,timeout,tsize,windowsize} (names in lower/upper/mixed case, unknown options interleaved, values at and around every boundary) for an RRQ of a file of 0..3W+1 blocks or a WRQ. Oracle: OACK iff >=1 recognised option and none unhonourable; OACK lists only requested options with blksize/timeout/windowsize <= requested and in range, tsize = true file size (RRQ) / echo (WRQ); unhonourable values (timeout 0, windowsize 0 or >65535, blksize outside 8..65464) are never acknowledged (silence, ERROR or omission accepted); without OACK: DATA 1 / ACK 0 and 512-byte lock-step. The model client then measures the transfer: every non-final DATA has exactly the acknowledged blksize, every burst has exactly min(W, blocks left) consecutive blocks and nothing beyond, an upload is acknowledged after exactly W blocks and not before, content is byte-identical, and in timing cases (acknowledged timeout 1-2 s) the first retransmission comes no earlier than the acknowledged timeout. A second part downloads with windows larger than the default socket buffer (windowsize x blksize up to ~1.5 MB; the model client enlarges its receive buffer with SO_RCVBUFFORCE) so that 'exactly W blocks per burst' is also measured for large windows. Non-trivial = >=2 recognised options or a boundary value; distinct = distinct cases. Failures are re-run once in isolation before being reported.");
     ctx.assume("burst size min(W, blocks) x (blksize+100) is kept below 100 KB so that loopback never drops datagrams; timeouts > 255 s are not generated; early-retransmission tolerance 130 ms");
     let dirs = DirPool::new(ctx, "c09");
+    let orders = exhaustive_orders();
+    enumerate(ctx, "exh-subsets-and-orders", &orders, true, |c, o| dirs.with(|d| judge(d, c, o)));
     explore_n(ctx, "random", ctx.tier.pick(4_000, 150_000), shards(), 24, strategy, |c: &Case, o| dirs.with(|d| judge(d, c, o)));
     explore_n(ctx, "big-window-download", ctx.tier.pick(48, 1_500), shards(), 12, big_strategy, |c: &Case, o| dirs.with(|d| judge(d, c, o)));
 }
